@@ -177,7 +177,24 @@ func runT(sc scen) result {
 		e.doClose(k, tr.CloseIdleConnections)
 	}
 
-	toks, res := e.finish(ms(50), grace, b.Close)
+	all, res := e.finish(ms(50), grace, b.Close)
+	// CloseIdleConnections promises nothing about later requests (the request of a call whose
+	// context was cancelled is still written by the connection goroutine): the journal tokens
+	// are left out of the mode t timeline; req-after-close says that one came after the last D.
+	var toks []string
+	lastD := -1
+	for i, t := range all {
+		if t[0] == 'D' {
+			lastD = i
+		}
+	}
+	for i, t := range all {
+		if t[0] != 'q' {
+			toks = append(toks, t)
+		} else if lastD >= 0 && i > lastD && t != "qmd:0" {
+			ft.add("req-after-close")
+		}
+	}
 	deriveTags(toks, ft)
 	return result{
 		args:  fmt.Sprintf("t - ; %s", joinToks(toks)),
